@@ -27,6 +27,17 @@ def gen(rng, n):
         if rng.chance(1, 5):
             d["STOP_AT_BYTES"] = rng.choice([1, 500, 2000])
         if rng.chance(1, 4):
+            # padding up to a path MTU above 1200 (loss probes stay clamped to 1200: their padding must
+            # not end up inside a STREAM frame) and, sometimes, key updates / migration in the middle
+            d["PAD_TO_MTU"] = 1
+            d["INITIAL_MTU"] = rng.choice([1300, 1452])
+            d["LINK_MTU"] = max(d.get("LINK_MTU", 1500), 1452)
+            d["LOSS"] = rng.choice([50, 100, 150, 200])
+            d["STREAM_BYTES"] = max(d["STREAM_BYTES"], 8000)
+        if rng.chance(1, 6):
+            d["MIGRATE_AT"] = rng.choice([30000, 60000, 150000])
+            d["MIGRATE_KIND"] = rng.below(2)
+        if rng.chance(1, 4):
             d["NCONNS"] = rng.range(2, 4)
             if d.get("CID_LEN", 8) == 0:
                 d["CID_LEN"] = 4
